@@ -1,6 +1,6 @@
 use crate::diagnostic_emitter::MosResult;
 use crate::impl_request_handler;
-use crate::lsp::{LspContext, RequestHandler};
+use crate::lsp::{character_to_byte_index, LspContext, RequestHandler};
 use itertools::Itertools;
 use lsp_types::request::Completion;
 use lsp_types::{CompletionItem, CompletionParams, CompletionResponse};
@@ -35,11 +35,16 @@ impl RequestHandler<Completion> for CompletionHandler {
                 let mut line = "";
                 let mut nested_scope = None;
                 if let Some(source_file) = codegen.tree().files.get(path) {
+                    if source_line >= source_file.file.num_lines() {
+                        // The client is ahead of (or behind) what we know about this document
+                        return Ok(None);
+                    }
                     line = source_file.file.source_line(source_line);
 
-                    // Only look at the line until the source_column
-                    if source_column <= line.len() && source_column > 0 {
-                        let (line, suffix) = line.split_at(source_column - 1);
+                    // Only look at the line until the source_column (which counts characters)
+                    if source_column <= line.chars().count() && source_column > 0 {
+                        let (line, suffix) =
+                            line.split_at(character_to_byte_index(line, source_column - 1));
 
                         // Are we autocompleting a dot?
                         if suffix.starts_with('.') {
